@@ -312,3 +312,13 @@ impl StackFrame {
                 final(self).stack.max_stack_size == old(self).stack.max_stack_size,
     { unimplemented!() }
 }
+
+// ---- Push(i): variable access by frame slot
+// slice::get (core): Some(&s[i]) iff i < len  (ASSUMED)
+#[verifier::external_body]
+pub fn slice_get(s: &[Value], i: usize) -> (r: Option<&Value>)
+    ensures r is Some == (i < s@.len()), r is Some ==> *r->Some_0 == s@[i as int]
+{ unimplemented!() }
+// R-err: the internal-error value of the out-of-bounds branch
+#[verifier::external_body]
+pub fn err_push_out_of_bounds() -> Error { unimplemented!() }
